@@ -28,7 +28,40 @@ def _queries(args):
     return rules.check_query_cases(random.Random(seed), n)
 
 
+def interpreter_flags(ctx, n_cases):
+    """Verdicts and messages must not depend on how the interpreter was started: the deterministic battery of C15 (module rules,
+    layer rules, diagram rules; verdict, message, error text) is run in fresh interpreters without flags, with -O and with -OO
+    (assert statements compiled away, docstrings dropped); the three digests must coincide."""
+    import os
+    import subprocess
+    import sys
+    from harness import common
+    battery_seed = ctx.rng.randrange(1 << 30)
+    outs = {}
+    for flag in ("", "-O", "-OO"):
+        env = dict(os.environ, PYTHONHASHSEED="0", PYTHONPATH=str(common.REPO / "src"))
+        env.pop("PYTHONOPTIMIZE", None)
+        cmd = [sys.executable, "-B"] + ([flag] if flag else []) + [str(common.VERIF / "harness" / "seed_battery.py"), str(battery_seed), str(n_cases)]
+        p = subprocess.run(cmd, capture_output=True, text=True, env=env, timeout=1200)
+        outs[flag or "no flag"] = p.stdout.strip() if p.returncode == 0 else "crashed: " + p.stderr[-300:]
+    ctx.evaluations += sum(int(v.split()[1]) for v in outs.values() if len(v.split()) == 2 and v.split()[1].isdigit())
+    ctx.stat("interpreter_flag_batteries", len(outs))
+    if len(set(outs.values())) > 1:
+        first = None
+        try:
+            from harness.props import c15
+            bad = next(f for f in ("-O", "-OO") if outs[f] != outs["no flag"])
+            first = c15.hash_seed_difference(battery_seed, n_cases, 0, 0, flags=("", bad))
+            if first:
+                first["what"] = first["what"].replace("under PYTHONHASHSEED=0 and", "without flags and").replace("under 0", "under " + bad).replace("under both seeds", "with and without " + bad)
+        except Exception:  # noqa: BLE001
+            pass
+        ctx.violation(dict(battery_seed=battery_seed, n_cases=n_cases, digests=outs, first_difference=first),
+                      "verdicts / messages differ when the interpreter runs with -O / -OO" + (f": {first['what']}" if first else ""), {"kind": "interpreter_flags"})
+
+
 def run(ctx: Ctx, lines=LINES):
+    interpreter_flags(ctx, 12 if ctx.quick else 120)
     jobs_small = []
     for t in range(len(rules.SMALL_TREES)):
         if ctx.quick:
